@@ -5,9 +5,14 @@ Two kinds of cases:
 
   {'kind': 'h', ...}   an event history as in C03 (same generator, same runner, same model), here judged strictly:
                        the verdict and the latency of the scripted validator fix the outcome
-  {'kind': 'g', 'fe': .., 'pkt': {'params': bool, 'sig': bool, 'digest_ok': bool, 'sig_valid': bool},
-   'route': 'none' | 'nocb' | {'validator': None | {'verdict': str, 'lat': ms}}}
-                       one incoming Interest through the gate of _on_interest / submit_interest
+  {'kind': 'g', 'fe': .., 'pkt': {'params': bool|'empty', 'sig': bool, 'digest_ok': bool|'absent', 'sig_valid': bool,
+                                  'dpos': 'mid' (optional), 'lp': True (optional)},
+   'route': 'none' | 'nocb' | {'validator': None | {'verdict': str, 'lat': ms}}, 'dup': bool, 'reattach': bool}
+                       one incoming Interest through the gate of _on_interest / submit_interest.
+                       digest_ok 'absent' = the name has no ParametersSha256DigestComponent at all; dpos 'mid' = the
+                       digest component is not the last one; lp = the Interest arrives inside an LpPacket; dup = a
+                       second registration on the prefix was attempted (and refused) before; reattach = the prefix was
+                       first registered with another validator, removed, and registered again
 """
 import asyncio
 import hashlib
@@ -30,10 +35,13 @@ TRUSTED = c03.TRUSTED + [
     'C05: the incoming-Interest gate is modelled after decoding and route lookup (decoding = C07, dispatch = C04); '
     'params_sha256_checker is observed through a logging wrapper installed by the harness',
 ]
-RULE = ('(a) the event histories of C03 with validator verdicts drawn from all ValidResult values / truthiness and the '
+RULE = ('(a) the event histories of C03 (incl. its hardening dimensions: parameterised / signed Interests, MustBeFresh, '
+        'need_raw_packet, Data inside LpPackets, bursts in one loop turn, lifetime 0, late awaits) with validator verdicts drawn from all ValidResult values / truthiness and the '
         'raising ones, latencies straddling the deadline, judged strictly; (b) every combination of ApplicationParameters '
         '/ signature presence x digest correct or corrupted x signature valid or corrupted x route none / without '
-        'callback / with or without validator x every scripted answer x latency, both front-ends. non-trivial = a '
+        'callback / with or without validator x every scripted answer x latency, both front-ends; digest component '
+        'absent / in the middle of the name, Interest inside an LpPacket with PIT token, registration refused (dup) or '
+        'removed and made again (reattach) with an intruder validator of the opposite verdict. non-trivial = a '
         'history in which some validator ran, or a gate case with parameters or signature; distinct = distinct cases')
 
 V2_ALL = ['PASS', 'ALLOW_BYPASS', 'FAIL', 'TIMEOUT', 'SILENCE', 'RAISE_TIMEOUT', 'RAISE_OTHER']
@@ -51,6 +59,15 @@ def gate_cases(fe):
         for digest_ok in (True, False):
             for sig_valid in ((True, False) if (sig and params) else ((False,) if sig else (True,))):
                 pkts.append({'params': params, 'sig': sig, 'digest_ok': digest_ok, 'sig_valid': sig_valid})
+    # hardening: no digest component at all; digest component in the middle of the name (right / wrong); in an LpPacket
+    for params, sig in ((True, False), ('empty', False), (True, True), (False, True)):
+        pkts.append({'params': params, 'sig': sig, 'digest_ok': 'absent', 'sig_valid': bool(sig and params)})
+        for digest_ok in (True, False):
+            pkts.append({'params': params, 'sig': sig, 'digest_ok': digest_ok, 'sig_valid': bool(sig and params),
+                         'dpos': 'mid'})
+        pkts.append({'params': params, 'sig': sig, 'digest_ok': True, 'sig_valid': bool(sig and params), 'lp': True})
+        pkts.append({'params': params, 'sig': sig, 'digest_ok': False, 'sig_valid': bool(sig and params), 'lp': True})
+    pkts.append({'params': False, 'sig': False, 'digest_ok': True, 'sig_valid': True, 'lp': True})
     routes = ['none', 'nocb', {'validator': None}]
     for v in verdicts:
         routes.append({'validator': {'verdict': v, 'lat': 0}})
@@ -62,6 +79,10 @@ def gate_cases(fe):
                 # the same, after a second registration on the occupied prefix (with an intruder validator of the
                 # opposite verdict) was attempted and refused: the validator in force must still be the first one
                 yield {'kind': 'g', 'fe': fe, 'pkt': p, 'route': r, 'dup': True}
+                # the same, where the prefix had been registered with the intruder validator and removed before:
+                # the validator in force is the one of the registration that exists now
+                if not p.get('dpos') and not p.get('lp') and (not r['validator'] or not r['validator']['lat']):
+                    yield {'kind': 'g', 'fe': fe, 'pkt': p, 'route': r, 'reattach': True}
 
 
 def cases(rng, tier):
@@ -69,9 +90,15 @@ def cases(rng, tier):
         for c in gate_cases(fe):
             yield c
     n = 900 if tier == 'quick' else 15000
-    for k in range(n):
+    m = 400 if tier == 'quick' else 6000
+    for k in range(n + m):
         fe = 'v2' if k % 2 == 0 else 'v1'
-        c = c03.gen_history(rng, fe)
+        if k < n:
+            c = c03.gen_history(rng, fe)
+        else:
+            # hardening stream: parameterised / signed Interests, need_raw_packet, bursts in one loop turn, lifetime 0,
+            # late awaits - all under the strict reading of the verdicts
+            c = c03.gen_history(rng, fe, p_ap=0.4, p_burst=0.2, p_odd=0.1, p_defer=0.15)
         # validators matter here: spread the verdicts, make the validators slow more often
         for e in c['events']:
             if e[1] == 'x':
@@ -111,9 +138,31 @@ def _fix_digest(enc, wire):
     return wire.replace(bytes(sig.digest_value_buf), h.digest())
 
 
+def _strip_digest(enc, wire):
+    """remove the trailing ParametersSha256DigestComponent from the name of an Interest (short lengths only)"""
+    assert wire[0] == 0x05 and wire[1] < 253 and wire[2] == 0x07 and wire[3] < 253
+    ln = wire[3]
+    name = wire[4:4 + ln]
+    assert name[-34] == 0x02 and name[-33] == 32
+    return bytes([0x05, wire[1] - 34, 0x07, ln - 34]) + name[:-34] + wire[4 + ln:]
+
+
 def build_interest(pkt):
+    w = _build_interest(pkt)
+    if pkt.get('lp'):
+        enc, _, ndnlp, _ = c03._lib()
+        w = c03.lp_wrap(ndnlp, w)
+    return w
+
+
+def _build_interest(pkt):
     enc, _, _, Signer = c03._lib()
     name = '/g/x'
+    if pkt.get('dpos') == 'mid':
+        # caller-supplied placeholder: the encoder fills the digest in place
+        name = [enc.Component.from_str('g'),
+                enc.Component.from_bytes(bytes(32), enc.Component.TYPE_PARAMETERS_SHA256),
+                enc.Component.from_str('x')]
     par = enc.InterestParam(nonce=77, lifetime=4000)
     if not pkt['params'] and not pkt['sig']:
         return bytes(enc.make_interest(name, par))
@@ -133,7 +182,10 @@ def build_interest(pkt):
         body = w[2:i] + w[i + 2:]
         assert len(body) < 253
         w = _fix_digest(enc, bytes([0x05, len(body)]) + body)
-    if not pkt['digest_ok']:
+    if pkt['digest_ok'] == 'absent':
+        w = _strip_digest(enc, w)
+        assert enc.parse_interest(w)[3].digest_value_buf is None
+    elif not pkt['digest_ok']:
         _, _, _, sig = enc.parse_interest(w)
         w = _flip(w, bytes(sig.digest_value_buf))
     return w
@@ -190,6 +242,13 @@ def run_gate(case):
                 if route == 'nocb':
                     rig.app._fib[enc.Name.normalize('/g')] = appv2.PrefixTreeNode()
                 elif route != 'none':
+                    if case.get('reattach'):
+                        async def intruder0(name, sig, ctx):
+                            log.append(['w', now()])
+                            return types.ValidResult.FAIL if spec and spec['verdict'] in ('PASS', 'ALLOW_BYPASS') \
+                                else types.ValidResult.PASS
+                        rig.app.attach_handler(rig_name_variant(enc), lambda *a: log.append(['x', now()]), intruder0)
+                        rig.app.detach_handler('/g')
                     rig.app.attach_handler('/g', handler, validator)
                     if case.get('dup'):
                         async def intruder(name, sig, ctx):
@@ -216,6 +275,12 @@ def run_gate(case):
                 if route == 'nocb':
                     rig.app._prefix_tree[enc.Name.normalize('/g')] = name_tree.PrefixTreeNode()
                 elif route != 'none':
+                    if case.get('reattach'):
+                        async def intruder0(name, sig):
+                            log.append(['w', now()])
+                            return not (spec and c03.V1_TRUTH.get(spec['verdict']))
+                        rig.app.set_interest_filter(rig_name_variant(enc), lambda *a: log.append(['x', now()]), intruder0)
+                        rig.app.unset_interest_filter('/g')
                     rig.app.set_interest_filter('/g', handler, validator)
                     if case.get('dup'):
                         async def intruder(name, sig):
@@ -253,12 +318,12 @@ def run_impl(case):
 # ------------------------------------------------------------------------------------- model
 def model_line(case, impl):
     if case['kind'] == 'h':
-        if case.get('tie'):
+        if c03.oracle_only(case):
             return None
         toks = c03.model_events(case)
         return f"C05 h {case['fe']} {';'.join(toks) if toks else '.'}"
     p, r = case['pkt'], case['route']
-    bits = ''.join('1' if x else '0' for x in (p['params'], p['sig'], p['digest_ok']))
+    bits = ''.join('1' if x else '0' for x in (p['params'], p['sig'], p['digest_ok'] is True))
     if isinstance(r, dict):
         rt = 'h:~' if r['validator'] is None else 'h:' + c03.model_verdict(case['fe'], r['validator']['verdict'])
     else:
@@ -294,12 +359,12 @@ def oracle_gate(case, impl):
     if 'D' in acts:
         return 'a second registration on an occupied prefix was not refused'
     if 'w' in acts or 'x' in acts:
-        return ('a refused second registration took effect: its '
-                + ('validator was consulted' if 'w' in acts else 'handler was invoked'))
+        return (('a removed registration' if case.get('reattach') else 'a refused second registration')
+                + ' took effect: its ' + ('validator was consulted' if 'w' in acts else 'handler was invoked'))
     if handled > 1:
         return 'handler invoked more than once'
     needs = p['params'] or p['sig']
-    if needs and not p['digest_ok'] and (handled or validated):
+    if needs and p['digest_ok'] is not True and (handled or validated):
         return ('an Interest with ApplicationParameters or signature and a wrong parameters digest was '
                 + ('delivered to the handler' if handled else 'passed on to the validator'))
     if not isinstance(r, dict):
@@ -347,7 +412,11 @@ def tags(case, impl):
     if case['kind'] == 'g':
         p, r = case['pkt'], case['route']
         t = ['gate', 'fe:' + case['fe'], 'pkt:' + ('P' if p['params'] else '-') + ('S' if p['sig'] else '-')
-             + ('' if p['digest_ok'] else ':bad-digest'), 'acts:' + (impl['acts'] or '-')]
+             + ('' if p['digest_ok'] is True else ':no-digest' if p['digest_ok'] == 'absent' else ':bad-digest')
+             + (':mid' if p.get('dpos') else '') + (':lp' if p.get('lp') else ''), 'acts:' + (impl['acts'] or '-')]
+        for k in ('dup', 'reattach'):
+            if case.get(k):
+                t.append(k)
         if isinstance(r, dict):
             t.append('route:' + ('no-validator' if r['validator'] is None else r['validator']['verdict']))
         else:
